@@ -24,6 +24,8 @@ pub struct GoRec {
     pub line: String,
     pub root: Option<Pos>,
     pub root_known: bool,
+    /// no `position` since the previous `go`: the root is the position that was current then (UCI semantics)
+    pub root_is_persisted: bool,
     pub depth: Option<u32>,
     pub movetime: Option<u64>,
     pub clocks: Option<(u64, u64, u64, u64)>,
@@ -220,7 +222,8 @@ fn parse_go(line: &str, g: &mut GoRec) {
     let (mut wt, mut bt, mut wi, mut bi) = (None, None, None, None);
     while let Some(x) = t.next() {
         match x {
-            "depth" => g.depth = t.next().and_then(|s| s.parse::<u8>().ok()).map(|d| d as u32),
+            // C08 speaks of limits 1..255; `depth 0` is answered like `depth 1` and judged as such
+            "depth" => g.depth = t.next().and_then(|s| s.parse::<u8>().ok()).map(|d| (d as u32).max(1)),
             "movetime" => g.movetime = t.next().and_then(|s| s.parse().ok()),
             "wtime" => wt = t.next().and_then(|s| s.parse().ok()),
             "btime" => bt = t.next().and_then(|s| s.parse().ok()),
@@ -238,6 +241,9 @@ fn parse_go(line: &str, g: &mut GoRec) {
 pub fn analyse_session(case: &Case, out: &Outcome) -> Analysis {
     let mut a = Analysis::default();
     let mut cur = Cur::None;
+    // by the protocol the position last set stays current; the pinned engine drops it after a search and then refuses a
+    // second `go`, but an engine that accepts one is asked about this position
+    let mut last_set: Option<Pos> = None;
     let mut gos: Vec<GoRec> = vec![];
     let mut thread_go: BTreeMap<Tid, usize> = BTreeMap::new();
     let mut sent_seq: BTreeMap<u32, u64> = BTreeMap::new();
@@ -302,7 +308,7 @@ pub fn analyse_session(case: &Case, out: &Outcome) -> Analysis {
                             let busy = cmd_errs.iter().any(|e| e.contains("search is still running"));
                             if busy && sent_after_best {
                                 a.v("C14", "R5-command-after-bestmove-refused", cmd_id, format!("`{}` was sent after the GUI had received every outstanding bestmove, engine answered `{}`", cmd_line, cmd_errs.join(" | ")));
-                            } else if !busy && sent_after_best && gos[gi].root_known && gos[gi].root.is_some() {
+                            } else if !busy && sent_after_best && gos[gi].root_known && gos[gi].root.is_some() && !gos[gi].root_is_persisted {
                                 a.v("C14", "R5-go-not-honoured", cmd_id, format!("`{}` after an accepted position answered `{}`", cmd_line, cmd_errs.join(" | ")));
                             }
                         }
@@ -339,6 +345,7 @@ pub fn analyse_session(case: &Case, out: &Outcome) -> Analysis {
                 }
                 "ucinewgame" => {
                     cur = Cur::None;
+                    last_set = None;
                 }
                 _ => {}
             }
@@ -371,9 +378,16 @@ pub fn analyse_session(case: &Case, out: &Outcome) -> Analysis {
                             Cur::Known(p, _) => {
                                 g.root = Some(p.clone());
                                 g.root_known = true;
+                                last_set = Some(p.clone());
                             }
-                            Cur::None => g.root_known = true,
-                            Cur::Unknown => {}
+                            Cur::None => {
+                                g.root_known = true;
+                                g.root = last_set.clone();
+                                g.root_is_persisted = g.root.is_some();
+                            }
+                            Cur::Unknown => {
+                                last_set = None;
+                            }
                         }
                         parse_go(line, &mut g);
                         gos.push(g);
@@ -814,6 +828,9 @@ pub fn analyse_session(case: &Case, out: &Outcome) -> Analysis {
                 true
             };
             if engine_fault {
+                if let Some(g) = gos.iter().find(|g| g.accepted && g.n_best == 0 && g.stop_read_seq.is_some()) {
+                    a.v("C07", "R1-stopped-answer", g.cmd, format!("`{}`: after the stop request ({}) the engine never answered: {}", g.line, g.stop_kind.unwrap_or("stop"), d));
+                }
                 a.v("C14", "R2-deadlock", cmd_id, format!("no thread can run and no timer is pending: {}", d));
             } else {
                 a.inconclusive = true;
@@ -895,7 +912,7 @@ pub fn analyse_direct(case: &Case, out: &Outcome) -> Analysis {
                             }
                             g.root = p;
                             g.root_known = true;
-                            g.depth = item.depth.map(|d| d as u32);
+                            g.depth = item.depth.map(|d| (d as u32).max(1));
                             saw_false_poll = None;
                             polls_at_false_out = None;
                         }
